@@ -3,5 +3,5 @@ Require Import FstV.Base FstV.Writer.
 Require Extraction.
 Require Import ExtrOcamlBasic.
 Extraction Language OCaml.
-Extraction "c11_model.ml" x_sink_session x_buf_session x_mem_session x_buf_drop cont_spec_finished
+Extraction "c11_model.ml" x_sink_session x_buf_session x_mem_session x_buf_drop cont_spec_finished x_cont_session
   o_calls o_fin o_final o_cnt s_data s_calls s_flushes s_unflushed b_inner b_buf.
